@@ -196,7 +196,7 @@ def run_model(cases, name, use_gen):
     prelude = PRELUDE.replace("{gen}", " C20P.GenPreParse" if use_gen else "")
     if use_gen:
         prelude += "Definition check_gen := check_with gen_run.\n"
-    outs = coqrun.eval_cases(prelude, exprs, name, shard=40, timeout=300)
+    outs = coqrun.eval_cases(prelude, exprs, name, shard=25, timeout=900)
     return [o.strip().strip('"') for o in outs]
 
 
@@ -329,6 +329,7 @@ REPLAYS = [   # fixed regression inputs (crashes found by this part; see notes/C
     ("for-after-lone-cr", "def f():\n    x: uint256 = 1\r    for i: uint256 in range(3):\n        pass\n"),
     ("for-after-formfeed", "def f():\n    pass\n\x0cfor i: uint256 in range(3):\n    pass\n"),
     ("comprehension", "def f():\n    a: uint256 = [x for x in y]\n"), ("hex-bad", 'a: Bytes[1] = x"zz"\n'),
+    ("for-swallows-indent", "for a:\n for b\n"), ("for-swallows-indent-2", "def f():\n for a:\n    for b\n"),
 ]
 TEXT_MUTATIONS = ['x"ab" x"cd"', 'x b"12"', 'x"1"', "\x0c", "\r", "\\\n", "for", " in ", ":", 'x"', "log ", "é", ";", "\t"]
 
@@ -364,10 +365,162 @@ def parse_outcome(src):
         return ("internal", type(e).__name__, str(e)[:120], innermost_frame(e))
 
 
+# ---------------------------------------------------------------- bookkeeping of parse.py (Book.v)
+
+BOOK_MSGS = ("Invalid syntax (unsupported whitespace", "invalid for loop syntax: not a name", "missing type annotation",
+             "invalid type annotation", "Hex string must have an even number", "`for` is only allowed",
+             "Invalid hex string literal")
+
+
+def book_shape_guard():
+    """static guard for the hand model Book.v: the consuming code still has the modelled shape"""
+    import ast
+    import inspect
+    import vyper.ast.parse as PA
+    tree = ast.parse(inspect.getsource(PA))
+    probs = []
+    fns = {n.name: n for n in ast.walk(tree) if isinstance(n, ast.FunctionDef)}
+
+    def guarded(fn, attr):
+        for n in ast.walk(fn):
+            if isinstance(n, ast.If) and f"len(pre_parser.{attr}) != 0" == ast.unparse(n.test) and n.body \
+                    and isinstance(n.body[-1], ast.Raise) and "SyntaxException" in ast.unparse(n.body[-1]):
+                return True
+        return False
+
+    top = fns.get("_parse_to_ast")
+    if top is None:
+        return ["_parse_to_ast not found"]
+    for attr in ("for_loop_annotations", "hex_string_locations"):
+        if not guarded(top, attr):
+            probs.append(f"_parse_to_ast no longer rejects a non-empty pre_parser.{attr} with a SyntaxException")
+        for n in ast.walk(top):
+            if isinstance(n, ast.Assert) and attr in ast.unparse(n):
+                probs.append(f"_parse_to_ast asserts on pre_parser.{attr} (a failing assert is an internal error)")
+    vf = fns.get("visit_For")
+    src = ast.unparse(vf) if vf else ""
+    if "key not in self._pre_parser.for_loop_annotations" not in src or ".for_loop_annotations.pop(key)" not in src:
+        probs.append("visit_For no longer checks the key before popping the annotation")
+    vc = fns.get("visit_Constant")
+    src = ast.unparse(vc) if vc else ""
+    if "key in self._pre_parser.hex_string_locations" not in src or "hex_string_locations.remove(key)" not in src:
+        probs.append("visit_Constant no longer removes the hex string location under a membership test")
+    return probs
+
+
+def book_events(src):
+    """-> None (pre-parse / python parse fails) or (anns, hexs, events) derived independently from the Python AST"""
+    import ast
+    import tokenize as T
+    from vyper.ast.pre_parser import PreParser
+    pp = PreParser(False)
+    try:
+        pp.parse(src)
+        tree = ast.parse(pp.reformatted_code)
+    except Exception:  # noqa
+        return None
+    anns = [(tuple(k), [tok4(t) for t in v]) for k, v in pp.for_loop_annotations.items() if k is not None]
+    hexs = [tuple(x) for x in pp.hex_string_locations]
+    events = []
+
+    def walk(node):
+        if isinstance(node, ast.For):
+            key = (node.lineno, node.col_offset)
+            toks = pp.for_loop_annotations.get(key)
+            res = "AOk"
+            if toks:
+                try:
+                    fake = ast.parse("dummy_target:" + T.untokenize(toks)).body[0]
+                    if getattr(fake, "value", None) is not None:
+                        res = f"(AValue ({fake.value.lineno}, {fake.value.col_offset}))"
+                except SyntaxError:
+                    res = "ABad"
+            tgt = node.target
+            events.append(f"EvFor ({key[0]}, {key[1]}) {coq_bool(isinstance(tgt, ast.Name))} "
+                          f"({getattr(tgt, 'lineno', 0)}, {getattr(tgt, 'col_offset', 0)}) {res}")
+        elif isinstance(node, ast.Constant) and isinstance(node.value, str):
+            col = node.col_offset + pp.adjustments.get((node.lineno, node.col_offset), 0)
+            events.append(f"EvStr ({node.lineno}, {col}) {coq_bool(len(node.value) % 2 == 0)}")
+        for ch in ast.iter_child_nodes(node):
+            walk(ch)
+
+    try:
+        walk(tree)
+    except Exception:  # noqa
+        return None
+    return anns, hexs, events
+
+
+def parse_outcome_full(src):
+    """like parse_outcome, with message, innermost frame (file:function) and location"""
+    from vyper.ast.parse import parse_to_ast
+    from vyper.exceptions import VyperException
+    try:
+        parse_to_ast(src)
+        return {"kind": "ok"}
+    except VyperException as e:
+        ann = (e.annotations or [None])[0]
+        return {"kind": "user", "cls": type(e).__name__, "msg": e.message, "frame": innermost_frame(e),
+                "loc": (getattr(ann, "lineno", None), getattr(ann, "col_offset", None))}
+    except Exception as e:  # noqa
+        return {"kind": "internal", "cls": type(e).__name__, "msg": str(e)[:100], "frame": innermost_frame(e), "loc": None}
+
+
+def book_tie(texts, outcomes=None):
+    """model of the bookkeeping (Book.v) vs the real front end; -> (n compared, mismatch list)"""
+    import re
+    cases = []
+    for name, src in texts:
+        if len(src) > 6000:
+            continue
+        ev = book_events(src)
+        if ev is not None:
+            cases.append((name, src, ev))
+    if not cases:
+        return 0, []
+    prelude = ("From Verif Require Import Base.PyInt C20P.Tok C20P.Book.\nFrom Coq Require Import Ascii.\nOpen Scope list_scope.\n"
+               'Local Infix "+++" := append (at level 60, right associativity).\n'
+               "Definition chr (n : nat) : string := String (ascii_of_nat n) EmptyString.\n"
+               "Definition show (r : pres unit) := match r with POk _ => (\"ok\"%string, 0, 0, \"\"%string) "
+               "| PErr (User c l k m) => (c, l, k, m) | PErr (Internal _) => (\"internal\"%string, 0, 0, \"\"%string) end.\n")
+    exprs = []
+    for _, _, (anns, hexs, events) in cases:
+        a = coq_list(f"({coq_pos(k)}, {coq_list(coq_tok(t) for t in v)})" for k, v in anns)
+        exprs.append(f"show (book {a} {coq_list(coq_pos(p) for p in hexs)} {coq_list(events)})")
+    outs = coqrun.eval_cases(prelude, exprs, "c20pbook", shard=60, timeout=300)
+    bad = []
+    for (name, src, _), o in zip(cases, outs):
+        m = re.match(r'^\("([^"]*)", \(?(-?\d+)\)?, \(?(-?\d+)\)?, "(.*)"\)$', o.strip(), re.S)
+        if not m:
+            bad.append((name, src, "unparsable model output " + o[:80], None))
+            continue
+        cls, l, c, msg = m.group(1), int(m.group(2)), int(m.group(3)), m.group(4)
+        real = (outcomes or {}).get(name) or parse_outcome_full(src)
+        in_book = (real["kind"] == "user" and real["cls"] == "SyntaxException"
+                   and real["frame"] in ("ast/parse.py:visit_For", "ast/parse.py:visit_Constant", "ast/parse.py:_parse_to_ast")
+                   and any(real["msg"].startswith(x) for x in BOOK_MSGS))
+        in_front = real["kind"] != "ok" and real.get("frame", "").startswith("ast/parse.py")
+        if cls == "ok":
+            ok = not in_book
+            why = "model accepts the bookkeeping, real raises a bookkeeping diagnostic"
+        else:
+            if in_book:
+                ok = real["cls"] == cls and real["loc"] == (l, c) and real["msg"].startswith(msg)
+                why = f"model predicts {cls} at {(l, c)} `{msg[:40]}`, real raises {real['cls']} at {real['loc']} `{real['msg'][:40]}`"
+            else:
+                ok = in_front     # another visitor's diagnostic came first; anything later (or success) means the check is gone
+                why = (f"model predicts the bookkeeping diagnostic `{msg[:50]}` at {(l, c)} but the front end "
+                       f"{'accepts the program' if real['kind'] == 'ok' else 'only fails later: ' + str(real.get('cls')) + ' in ' + str(real.get('frame'))}")
+        if not ok:
+            bad.append((name, src, why, real))
+    return len(cases), bad
+
+
 # ---------------------------------------------------------------- the part
 
 FILES = ["C20P/Tok.v", "C20P/GenTokConst.v", "C20P/GenPragmaConst.v", "C20P/PreParse.v", "C20P/Pragma.v", "C20P/Harness.v",
-         "C20P/GenPreParse.v", "C20P/PreParseSound.v", "C20P/PreParseProofs.v", "C20P/PragmaProofs.v", "C20P/PropsPreParse.v"]
+         "C20P/GenPreParse.v", "C20P/PreParseSound.v", "C20P/PreParseProofs.v", "C20P/PragmaProofs.v", "C20P/PropsPreParse.v",
+         "C20P/Book.v"]
 
 
 def generate():
@@ -416,16 +569,18 @@ def part_preparse(ctx):
     vyper.__version__ = "0.4.3"       # the checkout has no release version; give version pragmas a realistic target
     try:
         srcs = corpus_sources(ctx)
-        n_text = 60 if ctx.tier == "quick" else 600
+        n_text = 50 if ctx.tier == "quick" else 600
         texts = srcs + [(n, s) for n, s in REPLAYS] + text_variants(ctx, srcs, n_text)
         # ---- (4) search: whole front end on texts
+        outcomes = {}
         for name, src in texts:
-            o = parse_outcome(src)
-            count("parse:" + (o[0] if o[0] != "user" else "user:" + o[1]))
-            if o[0] == "internal":
-                key = f"C20:{o[1]}:{o[3]}"
-                failing(key, f"parse_to_ast raises {o[1]} (not a user-facing diagnostic)",
-                        {"source": src, "exception": o[1], "message": o[2], "frame": o[3], "origin": name})
+            o = parse_outcome_full(src)
+            outcomes[name] = o
+            count("parse:" + (o["kind"] if o["kind"] != "user" else "user:" + o["cls"]))
+            if o["kind"] == "internal":
+                key = f"C20:{o['cls']}:{o['frame']}"
+                failing(key, f"parse_to_ast raises {o['cls']} (not a user-facing diagnostic)",
+                        {"source": src, "exception": o["cls"], "message": o["msg"], "frame": o["frame"], "origin": name})
         # ---- (3) tie on token streams
         cases = []
         n_src = 0
@@ -435,11 +590,11 @@ def part_preparse(ctx):
             except Exception as e:  # noqa: tokenizer errors are turned into SyntaxException by PreParser.parse
                 count("tokenizer:" + type(e).__name__)
                 continue
-            if len(toks) > (900 if ctx.tier == "quick" else 4000):
+            if len(toks) > (900 if ctx.tier == "quick" else 2500):
                 continue
             n_src += 1
             cases.append((name, toks, name.startswith("c18/") and name.endswith(".vyi")))
-        n_streams = 150 if ctx.tier == "quick" else 1500
+        n_streams = 120 if ctx.tier == "quick" else 1500
         for kind, toks in gen_streams(ctx, n_streams):
             cases.append((kind, toks, False))
         model_cases = []
@@ -464,10 +619,22 @@ def part_preparse(ctx):
                 for (name, toks, _), (_, _, real), v in zip(cases, model_cases, verdicts):
                     if v != "ok":
                         mismatches.append((name, v, use_gen, toks, real))
+        n_book, bad_book = book_tie(texts, outcomes) if (COQ / "C20P" / "Book.vo").exists() else (0, [])
     finally:
         vyper.__version__ = saved_version
 
-    if mismatches and not found:
+    shape = book_shape_guard()
+    if bad_book and not found:
+        name, src, why, real = bad_book[0]
+        ctx.violation("correspondence-broken", "parse.py bookkeeping disagrees with its model (Book.v): " + why,
+                      {"origin": name, "source": src, "real": str(real), "n_mismatches": len(bad_book)})
+    if shape and not found:
+        ctx.violation("translator-rejected", "parse.py bookkeeping no longer has the modelled shape: " + shape[0], {"problems": shape})
+    if not b["ok"] and rejected is None and not found:
+        ctx.violation("theorem-broken", f"{b.get('failed_lemma')} in {b['file']}",
+                      {"theorem": b.get("failed_lemma"), "file": b["file"], "coq_output": b["out"][-1500:],
+                       "model_mismatches": [(m[0], m[1]) for m in mismatches[:5]]})
+    elif mismatches and not found:
         name, v, use_gen, toks, real = mismatches[0]
         ctx.violation("correspondence-broken",
                       f"{'regenerated' if use_gen else 'hand'} pre-parser model disagrees with PreParser._parse on: {v}",
@@ -475,12 +642,9 @@ def part_preparse(ctx):
                        "real": str(real)[:1500], "n_mismatches": len(mismatches)})
     if rejected is not None and not found:
         ctx.violation("translator-rejected", "cannot translate vyper/ast/pre_parser.py: " + rejected, {"error": rejected})
-    elif not b["ok"] and not found:
-        ctx.violation("theorem-broken", f"{b.get('failed_lemma')} in {b['file']}",
-                      {"theorem": b.get("failed_lemma"), "file": b["file"], "coq_output": b["out"][-1500:]})
-    n = len(texts) + len(model_cases) * (2 if gen_ready else 1)
+    n = len(texts) + n_book + len(model_cases) * (2 if gen_ready else 1)
     ctx.corr["preparse"] = {"texts_parsed": len(texts), "source_token_streams": n_src, "generated_token_streams": len(model_cases) - n_src,
-                            "model_comparisons": len(model_cases) * (2 if gen_ready else 1), "mismatches": len(mismatches),
+                            "model_comparisons": len(model_cases) * (2 if gen_ready else 1), "mismatches": len(mismatches), "bookkeeping_cases": n_book, "bookkeeping_mismatches": len(bad_book),
                             "regenerated_model_used": bool(gen_ready), "input_distribution": dict(sorted(dist.items()))}
     ctx.trusted += ["tools/vlib/c20_preparse2coq.py (CPS translator of the pre-parser methods; validated by the per-run differential)",
                     "coq/C20P/Pragma.v: hand model of the COMMENT block (exact differential); packaging.SpecifierSet abstracted"]
